@@ -179,7 +179,7 @@ class Runner:
         rc, out, err, to, _ = sh(['opt-14', '-S', '-internalize', '-internalize-public-api-list=' + api, '-globaldce', allll, '-o', minll], timeout=300)
         if rc != 0: raise BuildError('opt failed:\n' + err[-3000:])
         cfile = os.path.join(d, 'gen.c'); rep = os.path.join(d, 'gen.rep')
-        cmd = [IR2C, minll, '-o', cfile, '--report', rep, '--keep-prefix', 'verif_']
+        cmd = [IR2C, minll, '-o', cfile, '--report', rep, '--keep-prefix', 'verif_', '--keep-prefix', 'wl_']
         for m in job.models: cmd += ['--models', os.path.join(VERIF, m)]
         for p in job.preludes: cmd += ['--prelude', p]
         for s in job.stubs: cmd += ['--stub', s]
@@ -312,7 +312,7 @@ class Runner:
             with self.loglock:
                 self.functions_encoded.update(b['report'].get('defined', []))
         timeout = job.timeout or (150 if self.tier == 'quick' else 900)
-        mem = job.mem_gb or (8 if self.tier == 'quick' else 16)
+        mem = job.mem_gb or (12 if self.tier == 'quick' else 20)
         self.resolve_loop_rules(job, b)
         weight = min(MEM_BUDGET_GB, job.mem_gb or 3)      # jobs without a declared need measured < 1 GB; declared ones reserve their cap
         MEMSEM.acquire(weight)
@@ -385,6 +385,13 @@ class Runner:
     # ------------------------------------------------------------------ counterexample -> replay vector
     def extract_vector(self, job, prop_id):
         b = self.get_build(job)
+        saved_slice = job.slice_formula; job.slice_formula = False     # formula slicing removes the input-recording assignments from the trace
+        try:
+            return self.extract_vector_aux(job, b, prop_id)
+        finally:
+            job.slice_formula = saved_slice
+
+    def extract_vector_aux(self, job, b, prop_id):
         if '.unwind.' in prop_id or '.recursion' in prop_id:
             # unwinding assertions are created during symbolic execution and cannot be selected with --property; select only the
             # witness assertion (which drops every other instrumented property) and read the unwinding assertion's trace
@@ -424,7 +431,7 @@ class Runner:
             if key in self.builds: return self.builds[key]
             d = os.path.join(self.work, 'N_' + key); os.makedirs(d, exist_ok=True)
             exe = os.path.join(d, 'native')
-            san = ['-fsanitize=address,undefined', '-fno-sanitize-recover=undefined', '-fno-omit-frame-pointer', '-g'] if sanitize else []
+            san = ['-fsanitize=address,undefined', '-fno-sanitize=vptr', '-fno-sanitize-recover=undefined', '-fno-omit-frame-pointer', '-g'] if sanitize else []
             defs = defs_to_flags(job.cdefs) + defs_to_flags(job.pdefs) + defs_to_flags(job.native_defs) + ['-DVERIF_NATIVE', '-DHARNESS=' + job.entry]
             nsrcs = job.native_srcs if job.native_srcs is not None else job.srcs
             genfiles = []
@@ -576,6 +583,9 @@ def run_property(prop, tier, seed, jobs, meta, diff_jobs=(), diff_n=None):
                 for fp, st, txt, rp in outs:
                     sig = '%s|%s|%s' % (j.family, fp['loc'], fp['description'])
                     rec = {'job': j.name, 'property': fp['property'], 'description': fp['description'], 'loc': fp['loc'], 'replay': st, 'replay_file': rp, 'signature': sig}
+                    if st in ('native_build_failed', 'no_trace'):
+                        errors.append('%s: counterexample for "%s" could not be replayed (%s)' % (j.name, fp['description'], st)); unconfirmed.append(rec)
+                        continue
                     if fp.get('class') == 'unwind' and not st.startswith('violation'):
                         errors.append('%s: unwinding bound too small (the loop terminates natively on the counterexample input): %s at %s' % (j.name, fp['property'], fp['loc']))
                         continue
